@@ -263,6 +263,9 @@ def _get_ops_form(v: ast.expr, pipe: str):
 
 
 def run(ctx):
+    # "ready" is what get_ops(require_parents_complete=True) says it is: listed only if every parent is COMPLETED (C01#7/#8)
+    from . import c01
+    c01.check_get_ops(Renumber(ctx, {7: 5, 8: 5}))
     check_one(ctx, "naive", "naive", always_single=False)
     sched.ob_never_suspends(ctx, 6, "naive", "naive")
     check_one(ctx, "tmpl", "template", always_single=True)
